@@ -13,6 +13,7 @@
 #include "../../../../common/ast.h"
 #include "../../../../common/debug.h"
 #include "../../../../common/debug_messages.h"
+#include "../../../../common/stack_guard.h"
 #include "../../../../common/type_helpers.h"
 #include "../../core/error_handler.h"
 #include "../../core/interpreter.h"
@@ -166,6 +167,9 @@ void write_back_self_compound_members(Interpreter &interpreter,
 } // namespace
 
 int64_t ExpressionEvaluator::evaluate_function_call_impl(const ASTNode *node) {
+    // every Cb call level nests the C++ stack: runaway recursion is an error
+    StackGuard::check();
+
     if (interpreter_.is_debug_mode()) {
         std::cerr << "[DEBUG_IMPL] evaluate_function_call_impl called for: "
                   << node->name << std::endl;
